@@ -1,5 +1,7 @@
 package main
 
+import "time"
+
 func init() {
 	props["C15"] = &Prop{
 		ID: "C15", PkgDir: "interp", PkgPath: interpPath, PkgName: "interp",
@@ -12,10 +14,16 @@ func init() {
 				{Harness: "vh_C15_order", Globals: map[string]int{"vhNVars": 3}, Unroll: 12, MaxPaths: 200000},
 				{Harness: "vh_C15_order", Globals: map[string]int{"vhNVars": 4}, Unroll: 12, MaxPaths: 200000},
 			}
+			if tier == "thorough" {
+				// five variables: 2^20 relations, split on the first 5 relation bits into 32 obligations
+				for fix := 0; fix < 32; fix++ {
+					r = append(r, Oblig{Harness: "vh_C15_order", Globals: map[string]int{"vhNVars": 5, "vhDepFix": fix, "vhDepFixBits": 5}, Unroll: 14, MaxPaths: 200000, Budget: 90 * time.Minute})
+				}
+			}
 			r = append(r, Oblig{Harness: "vh_C15_deps", Globals: map[string]int{"vhDepthMax": 10}, Unroll: 30, NoRedirect: true})
 			return r
 		},
-		Bounds:      []string{"2..4 package-level variables in declaration order", "every dependency relation between them (n*(n-1) symbolic booleans), cyclic ones included"},
+		Bounds:      []string{"2..4 (thorough 5) package-level variables in declaration order", "every dependency relation between them (n*(n-1) symbolic booleans), cyclic ones included"},
 		Assumptions: []string{"getVarDependencies replaced by the symbolic relation in the ordering obligation", "single file"},
 		Stubs:       []string{"getVarDependencies (ordering obligation only)"},
 		Outside:     []string{"multi-file and multi-package layouts", "init functions and main order (covered under C09's Execute sequence only as far as activations go)"},
